@@ -74,6 +74,14 @@ RMod(a, b) ==
 
 IsIntegral(v) == v.d = 1
 
+\* the rounding built-ins on exact rationals (d > 0; \div floors)
+RFloorI(a) == a.n \div a.d
+RCeilI(a)  == -((-a.n) \div a.d)
+RTruncI(a) == Trunc(a.n, a.d)
+\* math.Round: nearest integer, halves away from zero
+RRoundI(a) == IF a.n >= 0 THEN (2 * a.n + a.d) \div (2 * a.d)
+              ELSE -((2 * (-a.n) + a.d) \div (2 * a.d))
+
 \* ----------------------------------------------------------------- display
 \* decimal digits of r/d (0 <= r < d, d a power of two): terminates in <= 8 steps
 RECURSIVE FracDigits(_, _)
